@@ -86,6 +86,7 @@ class Control(BaseAPIClass):
             pre_post = 'post'
         else:
             pre_post = 'pre'
+        control_operation = np.array(control_operation)
 
         if isinstance(time, int):
             steps = self._step_controls[pre_post].keys()
